@@ -6,6 +6,7 @@ import (
 	"fmt"
 	"math/rand"
 	"runtime"
+	"strconv"
 	"sync"
 	"sync/atomic"
 	"time"
@@ -334,7 +335,7 @@ func concRunCmd(args []string) int {
 				w.write(o)
 				stats["records"]++
 			}
-			w.write(map[string]interface{}{"k": "end", "stuck": stuck})
+			w.write(map[string]interface{}{"k": "end", "stuck": stuck, "panics": 0}) // a panic of a controlled call is its "ret"
 		}
 		if stuck {
 			// goroutines of this case are blocked for good; a fresh process continues
@@ -351,6 +352,8 @@ func concRunCmd(args []string) int {
 // ---- free scheduler (binding B for C11) -----------------------------------------------
 
 type freeSlot struct {
+	raw       string // the text given to Push (pushers that go through the raw entry point)
+	seq       uint32
 	id        int
 	delivered int   // written by the delivering goroutine only (a double delivery is a detectable race)
 	group     []int // ids delivered together with this message (set on the first message of a group)
@@ -359,13 +362,31 @@ type freeSlot struct {
 type freeStream struct {
 	r       *libaudit.Reassembler
 	reenter int
+	byID    map[int]*freeSlot // read-only while the round runs: messages that went through Push(type, raw) carry no payload
+	strayMu sync.Mutex
+	stray   [][]int // groups whose first message is nobody's
+}
+
+// slotOf finds the slot of a delivered message: by its payload, or (Push of raw text) by the id written into
+// the text - and then only if the message is filed under the sequence number written next to it.
+func (s *freeStream) slotOf(m *auparse.AuditMessage) *freeSlot {
+	if sl, ok := m.Payload.(*freeSlot); ok {
+		return sl
+	}
+	if mm := vidRe.FindStringSubmatch(m.RawData); mm != nil {
+		id, _ := strconv.Atoi(mm[1])
+		if sl := s.byID[id]; sl != nil && sl.raw == m.RawData && m.Sequence == sl.seq {
+			return sl
+		}
+	}
+	return nil
 }
 
 func (s *freeStream) ReassemblyComplete(msgs []*auparse.AuditMessage) {
 	ids := make([]int, 0, len(msgs))
 	for _, m := range msgs {
-		sl, ok := m.Payload.(*freeSlot)
-		if !ok {
+		sl := s.slotOf(m)
+		if sl == nil {
 			ids = append(ids, -1)
 			continue
 		}
@@ -373,9 +394,13 @@ func (s *freeStream) ReassemblyComplete(msgs []*auparse.AuditMessage) {
 		ids = append(ids, sl.id)
 	}
 	if len(msgs) > 0 {
-		if sl, ok := msgs[0].Payload.(*freeSlot); ok {
+		if sl := s.slotOf(msgs[0]); sl != nil {
 			sl.group = append(sl.group, ids...)
 			sl.group = append(sl.group, -2) // group separator
+		} else {
+			s.strayMu.Lock()
+			s.stray = append(s.stray, ids)
+			s.strayMu.Unlock()
 		}
 	}
 	if s.reenter > 0 && len(ids) > 0 && ids[0]%s.reenter == 0 {
@@ -433,31 +458,66 @@ func concFreeCmd(args []string) int {
 		closes := make([]closeRec, closers)
 		closeAfter := rng.Intn(pushers * perPusher)
 		var pushCount int64
+		var panics int64
+		guard := func(f func()) { // a panic in the library is an observation, not the end of the driver
+			defer func() {
+				if p := recover(); p != nil {
+					atomic.AddInt64(&panics, 1)
+				}
+			}()
+			f()
+		}
+		// the pushes are laid out beforehand (the Stream looks slots up by id while the round runs)
+		type plannedPush struct {
+			sl  *freeSlot
+			off int
+			typ int
+		}
+		plan := make([][]plannedPush, pushers)
+		st.byID = map[int]*freeSlot{}
+		for p := 0; p < pushers; p++ {
+			prng := rand.New(rand.NewSource(rng.Int63()))
+			for i := 0; i < perPusher; i++ {
+				id := p*100000 + i + 1
+				off := i/2 + prng.Intn(2) // pushers share sequence numbers
+				sl := &freeSlot{id: id, seq: uint32(0xFFFFFFF0) + uint32(off)}
+				if p%2 == 1 { // every other pusher hands over raw text, as a netlink read loop does
+					sl.raw = fmt.Sprintf("audit(1490137971.011:%d): vid=%d", sl.seq, id)
+				}
+				st.byID[id] = sl
+				slots[p] = append(slots[p], sl)
+				plan[p] = append(plan[p], plannedPush{sl, off, rsRandomType(prng)})
+			}
+		}
 		for p := 0; p < pushers; p++ {
 			wg.Add(1)
-			prng := rand.New(rand.NewSource(rng.Int63()))
-			go func(p int, prng *rand.Rand) {
+			go func(p int) {
 				defer wg.Done()
-				for i := 0; i < perPusher; i++ {
-					id := p*100000 + i + 1
-					off := i/2 + prng.Intn(2) // pushers share sequence numbers
-					typ := rsRandomType(prng)
-					sl := &freeSlot{id: id}
-					slots[p] = append(slots[p], sl)
-					m := &auparse.AuditMessage{
-						RecordType: auparse.AuditMessageType(typ),
-						Timestamp:  time.Unix(1490137971, 0),
-						Sequence:   uint32(0xFFFFFFF0) + uint32(off),
-						Payload:    sl,
+				buf := make([]byte, 0, 128)
+				for _, pp := range plan[p] {
+					sl := pp.sl
+					if sl.raw != "" {
+						buf = append(buf[:0], sl.raw...)
+						guard(func() { r.Push(auparse.AuditMessageType(pp.typ), buf) })
+						for j := range buf {
+							buf[j] = 'x'
+						}
+					} else {
+						m := &auparse.AuditMessage{
+							RecordType: auparse.AuditMessageType(pp.typ),
+							Timestamp:  time.Unix(1490137971, 0),
+							Sequence:   sl.seq,
+							Payload:    sl,
+						}
+						guard(func() { r.PushMessage(m) })
 					}
-					r.PushMessage(m)
 					stamp := atomic.AddInt64(&clock, 1)
-					pushed[p] = append(pushed[p], pushRec{id, off, typ, stamp})
+					pushed[p] = append(pushed[p], pushRec{sl.id, pp.off, pp.typ, stamp})
 					if atomic.AddInt64(&pushCount, 1) == int64(closeAfter) {
 						close(startClose)
 					}
 				}
-			}(p, prng)
+			}(p)
 		}
 		for c := 0; c < closers; c++ {
 			wg.Add(1)
@@ -465,8 +525,9 @@ func concFreeCmd(args []string) int {
 				defer wg.Done()
 				<-startClose
 				stamp := atomic.AddInt64(&clock, 1)
-				err := r.Close()
-				closes[c] = closeRec{stamp, err == nil}
+				ok := false
+				guard(func() { ok = r.Close() == nil })
+				closes[c] = closeRec{stamp, ok}
 			}(c)
 		}
 		var mwg sync.WaitGroup
@@ -479,7 +540,7 @@ func concFreeCmd(args []string) int {
 					case <-stopMaint:
 						return
 					default:
-						r.Maintain()
+						guard(func() { r.Maintain() })
 						runtime.Gosched()
 					}
 				}
@@ -530,8 +591,14 @@ func concFreeCmd(args []string) int {
 				}
 			}
 		}
-		w.write(map[string]interface{}{"k": "end", "stuck": stuck})
+		if !stuck {
+			for _, ids := range st.stray {
+				w.write(map[string]interface{}{"k": "fdeliv", "ids": ids})
+			}
+		}
+		w.write(map[string]interface{}{"k": "end", "stuck": stuck, "panics": int(atomic.LoadInt64(&panics))})
 		stats["rounds"]++
+		stats["panics"] += int(panics)
 		if stuck {
 			stats["stuck"]++
 			break
